@@ -1,15 +1,18 @@
 #!/bin/bash
-# usage: seedrun.sh <ID> [tier]  — apply every seeded change of a property to /repo, run the check, undo; records outcome in seeded/<id>-x/result.txt
+# usage: seedrun.sh <ID> [tier]  — apply every seeded change of a property to the tree under test (default /repo,
+# or $SEEDREPO = a scratch worktree of /repo HEAD), run the check against it, undo; records the outcome in seeded/<id>-x/result.txt
 ID=$1; TIER=${2:-quick}
+R=${SEEDREPO:-/repo}
 cd /verif
 for d in seeded/$ID-*; do
   [ -f $d/patch.diff ] || continue
-  if ! git -C /repo apply --check $PWD/$d/patch.diff 2>/dev/null; then echo "$d: patch does not apply to current /repo"; echo "does not apply (site changed by a fix: commit)" > $d/result.txt; continue; fi
-  git -C /repo apply $PWD/$d/patch.diff
-  OUT=$(./check $ID --tier $TIER 2>/dev/null | grep -E "^VIOLATION|^$ID " | head -4)
+  if ! git -C $R apply --check $PWD/$d/patch.diff 2>/dev/null; then echo "$d: patch does not apply to current HEAD"; echo "patch does not apply to /repo HEAD any more (the site was changed by a fix: commit)" > $d/result.txt; continue; fi
+  git -C $R apply $PWD/$d/patch.diff
+  DEMO=$(cd $d && PYTHONPATH=$R PYTHONHASHSEED=0 timeout 900 /venv/bin/python -W ignore demo.py >/dev/null 2>&1; echo $?)
+  OUT=$(VERIF_REPO=$R ./check $ID --tier $TIER 2>/dev/null | grep -E "^VIOLATION|^$ID " | head -4)
   RC=$(echo "$OUT" | grep -c "^VIOLATION")
-  git -C /repo checkout -- .
-  echo "$d: $( [ $RC -gt 0 ] && echo CAUGHT || echo MISSED ) :: $(echo "$OUT" | tail -1)"
-  { [ $RC -gt 0 ] && echo "caught by ./check $ID --tier $TIER" || echo "MISSED by ./check $ID --tier $TIER"; echo "$OUT"; } > $d/result.txt
+  git -C $R checkout -- .
+  echo "$d: demo_exit=$DEMO $( [ $RC -gt 0 ] && echo CAUGHT || echo MISSED ) :: $(echo "$OUT" | tail -1)"
+  { echo "HEAD $(git -C /repo log --format=%h -1); demonstration exit code with the change applied: $DEMO (0 = the change no longer breaks the property on the repaired tree)"; [ $RC -gt 0 ] && echo "caught by ./check $ID --tier $TIER" || echo "MISSED by ./check $ID --tier $TIER"; echo "$OUT"; } > $d/result.txt
 done
-./check $ID --tier $TIER >/dev/null 2>&1   # refresh the evidence file on the unchanged tree
+VERIF_REPO=/repo ./check $ID --tier $TIER >/dev/null 2>&1   # refresh the evidence file on the unchanged tree
